@@ -595,7 +595,13 @@ def o_choose_point(R, rng, g):
     pts = gen_simplex(rng, d, g)
     if pts is None:
         return
-    P = FR(pts)
+    # the axis scaling LearnerND applies (transform): niceness and the longest edge are judged in the scaled frame, the point
+    # is returned in the original one
+    diag = None
+    if rng.random() < 0.5:
+        diag = [rng.choice([1.0, 0.01, 0.125, 0.5, 4.0, 10.0, 64.0]) for _ in range(d)]
+    Q = FR(pts)
+    P = Q if diag is None else [[c * Fr(w) for c, w in zip(p, diag)] for p in Q]
     centre, r2 = exact_circumcentre(P)
     A = [[P[i + 1][k] - P[0][k] for i in range(d)] for k in range(d)]
     alpha = fsolve(A, [centre[k] - P[0][k] for k in range(d)])
@@ -603,23 +609,27 @@ def o_choose_point(R, rng, g):
     if any(abs(b) < Fr(BAND) for b in bary):
         return
     inside = all(b > 0 for b in bary)
-    R.tag(f"choose_point_in_simplex dim={d} {'centroid' if inside else 'longest edge'}")
-    ok, got = R.call("learnerND.choose_point_in_simplex", LN.choose_point_in_simplex, np.array(pts, dtype=float))
+    R.tag(f"choose_point_in_simplex dim={d} {'centroid' if inside else 'longest edge'} {'identity' if diag is None else 'axis scaling'}")
+    if diag is None:
+        ok, got = R.call("learnerND.choose_point_in_simplex", LN.choose_point_in_simplex, np.array(pts, dtype=float))
+    else:
+        ok, got = R.call("learnerND.choose_point_in_simplex", LN.choose_point_in_simplex, np.array(pts, dtype=float),
+                         transform=np.diag(diag))
     if not ok:
         return
     if inside:
-        want = [sum(p[k] for p in P) / (d + 1) for k in range(d)]
+        want = [sum(p[k] for p in Q) / (d + 1) for k in range(d)]
     else:
         el = sorted(((sum((a - b) ** 2 for a, b in zip(P[i], P[j])), i, j) for i in range(d + 1) for j in range(i + 1, d + 1)), reverse=True)
         if el[0][0] - el[1][0] <= Fr(1e-6) * el[0][0]:
             return          # no unique longest edge
         _, i, j = el[0]
-        want = [(a + b) / 2 for a, b in zip(P[i], P[j])]
-    scale = max(abs(c) for p in P for c in p) or 1
+        want = [(a + b) / 2 for a, b in zip(Q[i], Q[j])]
+    scale = max(abs(c) for p in Q for c in p) or 1
     R.check("learnerND.choose_point_in_simplex", "choose_point_in_simplex",
             all(abs(Fr(float(a)) - b) <= Fr(REL) * scale for a, b in zip(got, want)),
-            f"choose_point_in_simplex({pts}) = {list(map(float, got))}, circumcentre {'inside' if inside else 'outside'} "
-            f"-> expected {list(map(fl, want))}")
+            f"choose_point_in_simplex({pts}, transform=diag({diag})) = {list(map(float, got))}, circumcentre "
+            f"{'inside' if inside else 'outside'} in the scaled frame -> expected {list(map(fl, want))}")
 
 
 def o_l1d(R, rng, g):
